@@ -146,8 +146,9 @@ func VerifGzDiff() {
 	data = append(data, garbage...)
 	verifrt.ObserveBytes("data", data)
 
-	fsrc := bufio.NewReaderSize(bytes.NewReader(data), 16)
-	ssrc := bufio.NewReaderSize(bytes.NewReader(data), 16)
+	fund, sund := bytes.NewReader(data), bytes.NewReader(data)
+	fsrc := bufio.NewReaderSize(fund, 16)
+	ssrc := bufio.NewReaderSize(sund, 16)
 	fz, ferr := NewReader(fsrc)
 	sz, serr := stdgzip.NewReader(ssrc)
 	verifrt.Assert(vgErrKind(ferr) == vgErrKind(serr), "C08:open-error")
@@ -178,7 +179,7 @@ func VerifGzDiff() {
 		}
 		verifrt.Cover("member-done")
 		// C05 one level up: both sources are positioned identically
-		verifrt.Assert(fsrc.Buffered() == ssrc.Buffered(), "C05:gzip-source-position")
+		verifrt.Assert(fsrc.Buffered()+fund.Len() == ssrc.Buffered()+sund.Len(), "C05:gzip-source-position")
 		e1 := fz.Reset(fsrc)
 		e2 := sz.Reset(ssrc)
 		verifrt.Assert(vgErrKind(e1) == vgErrKind(e2), "C08:reset-error-kind")
@@ -244,8 +245,14 @@ func VerifGzWrite() {
 	// header fields
 	nameLen := verifrt.Param("NAME")
 	nb := verifrt.Bytes(nameLen)
+	for _, c := range nb {
+		verifrt.Assume(c < 0xE0) // 3/4-byte UTF-8 sequences are outside the claim
+	}
 	name := string(nb)
 	cb := verifrt.Bytes(verifrt.Param("COMMENT"))
+	for _, c := range cb {
+		verifrt.Assume(c < 0xE0)
+	}
 	comment := string(cb)
 	var extra []byte
 	if verifrt.Pick("extra", 2) == 1 {
